@@ -310,6 +310,9 @@ func init() {
 		l.items = append(l.items, args[1])
 		return nil
 	}
+	externals["(*sync.WaitGroup).Add"] = nop
+	externals["(*sync.WaitGroup).Done"] = nop
+	externals["(*sync.WaitGroup).Wait"] = nop
 	externals["runtime.KeepAlive"] = nop
 	externals["runtime.SetFinalizer"] = nop
 }
